@@ -94,13 +94,13 @@ pub proof fn axiom_overhead()
 impl Record {
     #[verifier::external_body]
     pub fn new(key: Vec<u8>, value: Vec<u8>, timestamp: u64) -> (r: Record)
-        ensures r.key@ == key@, r.timestamp == timestamp, rec_value_len(&r) == value@.len(), r.ttl_expiry.val() == 0,
+        ensures r.key@ == key@, r.timestamp == timestamp, rec_value_len(&r) == value@.len(), r.ttl_expiry.val() == 0, rec_resident(&r) == Some(value@),
     {
         unimplemented!()
     }
     #[verifier::external_body]
     pub fn new_with_timestamp_ttl(key: Vec<u8>, value: Vec<u8>, timestamp: u64, ttl_expiry: u64) -> (r: Record)
-        ensures r.key@ == key@, r.timestamp == timestamp, rec_value_len(&r) == value@.len(), r.ttl_expiry.val() == ttl_expiry,
+        ensures r.key@ == key@, r.timestamp == timestamp, rec_value_len(&r) == value@.len(), r.ttl_expiry.val() == ttl_expiry, rec_resident(&r) == Some(value@),
     {
         unimplemented!()
     }
@@ -143,8 +143,12 @@ pub mod scc {
 #[verifier::external_body]
 pub struct VacantEntry { _p: () }
 impl VacantEntry {
+    // the key this slot was looked up with
+    pub uninterp spec fn key(&self) -> Seq<u8>;
+    // index invariant (made inductive here): a record is published under its own key
     #[verifier::external_body]
     pub fn insert_entry(self, record: Arc<Record>) -> (e: OccupiedEntry)
+        requires record.key@ == self.key(),
         ensures e.current() == record,
     {
         unimplemented!()
@@ -158,7 +162,7 @@ impl OccupiedEntry {
 
     #[verifier::external_body]
     pub fn get(&self) -> (r: &Arc<Record>)
-        ensures *r == self.current(),
+        ensures *r == self.current(), r.key@.len() <= 0x10_0000,
     {
         unimplemented!()
     }
@@ -172,6 +176,7 @@ impl OccupiedEntry {
 
     #[verifier::external_body]
     pub fn insert(&mut self, record: Arc<Record>) -> (prev: Arc<Record>)
+        requires record.key@ == old(self).current().key@,
         ensures final(self).current() == record, prev == old(self).current(),
     {
         unimplemented!()
@@ -183,8 +188,15 @@ pub struct HashIndex { _p: () }
 impl HashIndex {
     // the generation the index holds for a key at the time of the call (A3: stable within one call)
     pub uninterp spec fn lookup(&self, key: Seq<u8>) -> Option<Arc<Record>>;
+    // index invariant: the record stored under a key carries that key (every insert site proves it: insert_entry / insert)
     #[verifier::external_body]
-    pub fn entry(&self, key: Vec<u8>) -> scc::hash_map::Entry { unimplemented!() }
+    pub fn entry(&self, key: Vec<u8>) -> (r: scc::hash_map::Entry)
+        ensures
+            r matches scc::hash_map::Entry::Occupied(e) ==> e.current().key@ == key@,
+            r matches scc::hash_map::Entry::Vacant(v) ==> v.key() == key@,
+    {
+        unimplemented!()
+    }
     // self.hash_table.read(key, |_, v| v.clone())   (rule R-hread)
     #[verifier::external_body]
     pub fn read_arc(&self, key: &[u8]) -> (r: Option<Arc<Record>>)
@@ -223,6 +235,7 @@ impl Statistics {
 pub enum Operation { Insert, Update, Delete, Get, PartialUpdate }
 
 #[verifier::external_body]
+#[derive(Clone, Copy)]
 pub struct InstantH { _p: () }
 #[verifier::external_body]
 pub fn instant_now() -> InstantH { unimplemented!() }
